@@ -639,7 +639,7 @@ def noFloatS : Slots → Bool
 end
 
 -- the table's values are closed where this template uses them: an array slot gets no variable
--- name, a list slot gets a well-formed item without variables
+-- name, a list slot gets a well-formed item without variables (not the empty placeholder item)
 mutual
 def closedOnT (e : Env) : Tmpl → Prop
   | .list xs => closedOnS e xs
@@ -652,7 +652,7 @@ def closedOnS (e : Env) : Slots → Prop
   | .nil => True
   | .item t r => closedOnT e t ∧ closedOnS e r
   | .var n r =>
-    (∀ v, e.get? n = some v → (∀ s, v ≠ .str s) ∧ (∀ t', v = .item t' → t'.wf = true ∧ t'.vars = [])) ∧ closedOnS e r
+    (∀ v, e.get? n = some v → (∀ s, v ≠ .str s) ∧ (∀ t', v = .item t' → t'.wf = true ∧ t'.vars = [] ∧ t' ≠ .empty)) ∧ closedOnS e r
 end
 
 /-- lookups in the non-ellipsis part of a table -/
@@ -894,7 +894,7 @@ theorem compose_S : ∀ (xs : Slots) (fuel : Nat) (o1 o2 : Env) (a1 : List GoVal
         obtain ⟨hns, hit⟩ := hc.1 v h1
         rcases mkListSlots_cons _ _ _ hm with ⟨t', ys', hg, rfl, hm'⟩ | ⟨m, ys', hg, _, _⟩
         · subst hg
-          obtain ⟨hwt, hvt⟩ := hit t' rfl
+          obtain ⟨hwt, hvt, _⟩ := hit t' rfl
           have ih := compose_S r fuel o1 o2 a1' ys' (by simpa [Slots.wfAll] using hw) hn.2 (by simpa [noFloatS] using hf) hc.2
             (by simpa [Slots.depth] using hd) (by simp only [Slots.depth] at hd1; omega) hr hm'
           have hnt := noEllT_of_novars t' hvt
@@ -979,5 +979,1022 @@ theorem Tmpl.fill_compose (t t1 : Tmpl) (e1 e2 : Env) (hw : t.wf = true) (hn : n
   have := compose_T t (max t.depth t1.depth) e1 e2 t1 hw hn hf hc (Nat.le_max_left _ _) (Nat.le_max_right _ _) h'
   rw [← fill_eq_Tmpl_fill t1 _ e2 this.1 (Nat.le_max_right _ _), ← fill_eq_Tmpl_fill t _ (e1 ++ e2) hn (Nat.le_max_left _ _)]
   exact this.2
+
+end Secs
+
+/-! ## Unmentioned variables remain, in their original order -/
+namespace Secs
+open Sml
+
+def unboundIn (e : Env) (v : Name) : Bool := (e.get? v).isNone
+
+/-- the factory keeps exactly the unbound names, in order (closed values) -/
+theorem mkSlots_vars {α} (conv : GoVal → Option α) (canon : α → GoVal) (e : Env) :
+    ∀ (xs ys : List (Slot α)), ClosedFor conv e (slotVars xs) →
+      (∀ a, Slot.val a ∈ xs → conv (canon a) = some a) →
+      (∀ n, Slot.var n ∈ xs → conv (.str n) = none) →
+      mkSlots conv (fillArgs canon e xs) = some ys →
+      slotVars ys = (slotVars xs).filter (unboundIn e)
+  | [], ys, _, _, _, h => by
+    simp only [fillArgs, mkSlots, Option.some.injEq] at h
+    subst h; rfl
+  | .val a :: r, ys, hc, hx, hn, h => by
+    simp only [fillArgs] at h
+    rw [mkSlots_cons_some conv _ a _ (hx a (by simp))] at h
+    cases hr : mkSlots conv (fillArgs canon e r) with
+    | none => simp [hr] at h
+    | some ys' =>
+      simp only [hr, Option.map_some, Option.some.injEq] at h
+      subst h
+      simpa [slotVars] using mkSlots_vars conv canon e r ys' (by simpa [slotVars] using hc)
+        (fun a h => hx a (by simp [h])) (fun n h => hn n (by simp [h])) hr
+  | .var n :: r, ys, hc, hx, hn, h => by
+    simp only [fillArgs] at h
+    cases h1 : Env.get? e n with
+    | none =>
+      simp only [h1] at h
+      rw [mkSlots_cons_name conv n _ (hn n (by simp))] at h
+      cases hr : mkSlots conv (fillArgs canon e r) with
+      | none => simp [hr] at h
+      | some ys' =>
+        simp only [hr, Option.map_some, Option.some.injEq] at h
+        subst h
+        have ih := mkSlots_vars conv canon e r ys' hc.tail (fun a h => hx a (by simp [h])) (fun n h => hn n (by simp [h])) hr
+        simp [slotVars, List.filter_cons, unboundIn, h1, ih]
+    | some v =>
+      simp only [h1] at h
+      cases hv : conv v with
+      | none =>
+        exfalso
+        by_cases hs : ∃ s, v = .str s
+        · obtain ⟨s, rfl⟩ := hs
+          have := hc n (by simp [slotVars]) s h1
+          simp [hv] at this
+        · rw [mkSlots_cons_refused conv v _ hv (fun s hs' => hs ⟨s, hs'⟩)] at h
+          cases h
+      | some a =>
+        rw [mkSlots_cons_some conv v a _ hv] at h
+        cases hr : mkSlots conv (fillArgs canon e r) with
+        | none => simp [hr] at h
+        | some ys' =>
+          simp only [hr, Option.map_some, Option.some.injEq] at h
+          subst h
+          have ih := mkSlots_vars conv canon e r ys' hc.tail (fun a h => hx a (by simp [h])) (fun n h => hn n (by simp [h])) hr
+          simp [slotVars, List.filter_cons, unboundIn, h1, ih]
+
+theorem vars_int (w : Nat) (xs : List (Slot Int)) (e : Env) (t1 : Tmpl) (hw : (Tmpl.int w xs).wf = true)
+    (hc : ClosedFor convInt e (slotVars xs)) (h : fillLeaf (.int w xs) e = some t1) :
+    t1.vars = (slotVars xs).filter (unboundIn e) := by
+  rw [fillLeaf_int w xs e hw] at h
+  obtain ⟨ys, rfl, hys, _⟩ := mkInt_some w _ t1 h
+  exact mkSlots_vars convInt (.sint 64) e xs ys hc (fun _ _ => rfl) (fun _ _ => rfl) hys
+
+theorem vars_uint (w : Nat) (xs : List (Slot Nat)) (e : Env) (t1 : Tmpl) (hw : (Tmpl.uint w xs).wf = true)
+    (hc : ClosedFor convUint e (slotVars xs)) (h : fillLeaf (.uint w xs) e = some t1) :
+    t1.vars = (slotVars xs).filter (unboundIn e) := by
+  rw [fillLeaf_uint w xs e hw] at h
+  obtain ⟨ys, rfl, hys, _⟩ := mkUint_some w _ t1 h
+  exact mkSlots_vars convUint (.uint 64) e xs ys hc (fun _ _ => rfl) (fun _ _ => rfl) hys
+
+theorem vars_boolean (xs : List (Slot Bool)) (e : Env) (t1 : Tmpl) (hw : (Tmpl.boolean xs).wf = true)
+    (hc : ClosedFor convBool e (slotVars xs)) (h : fillLeaf (.boolean xs) e = some t1) :
+    t1.vars = (slotVars xs).filter (unboundIn e) := by
+  rw [fillLeaf_boolean xs e hw] at h
+  obtain ⟨ys, rfl, hys, _⟩ := mkBoolean_some _ t1 h
+  exact mkSlots_vars convBool .bool e xs ys hc (fun _ _ => rfl) (fun _ _ => rfl) hys
+
+theorem vars_binary (xs : List (Slot Nat)) (e : Env) (t1 : Tmpl) (hw : (Tmpl.binary xs).wf = true)
+    (hc : ClosedFor convBinary e (slotVars xs)) (h : fillLeaf (.binary xs) e = some t1) :
+    t1.vars = (slotVars xs).filter (unboundIn e) := by
+  rw [fillLeaf_binary xs e hw] at h
+  obtain ⟨ys, zs, rfl, hys, hz, _⟩ := mkBinary_some _ t1 h
+  rw [fillArgs_liftB] at hys
+  have hnames : ∀ n, Slot.var n ∈ xs.map liftB → convBinary (.str n) = none := by
+    intro n hn
+    simp only [List.mem_map] at hn
+    obtain ⟨s, hs, hsl⟩ := hn
+    cases s with
+    | val v => simp [liftB] at hsl
+    | var m =>
+      simp only [liftB, Slot.var.injEq] at hsl
+      subst hsl
+      simp only [Tmpl.wf, Bool.and_eq_true] at hw
+      have := (slotsOk_mem _ _ hw.2).2 m hs
+      simp [convBinary, valid_not_0b m this]
+  have hvals : ∀ a, Slot.val a ∈ xs.map liftB → convBinary (canonB a) = some a := by
+    intro a ha
+    simp only [List.mem_map] at ha
+    obtain ⟨s, _, hsl⟩ := ha
+    cases s with
+    | val v => simp only [liftB, Slot.val.injEq] at hsl; subst hsl; rfl
+    | var m => simp [liftB] at hsl
+  have := mkSlots_vars convBinary canonB e (xs.map liftB) ys
+    (by rw [slotVars_map liftB (fun _ => rfl) (fun _ => ⟨_, rfl⟩)]; exact hc) hvals hnames hys
+  rw [slotVars_map liftB (fun _ => rfl) (fun _ => ⟨_, rfl⟩)] at this
+  rw [← hz, slotVars_map liftB (fun _ => rfl) (fun _ => ⟨_, rfl⟩)] at this
+  simpa [Tmpl.vars] using this
+
+end Secs
+
+namespace Secs
+open Sml
+
+theorem valid_not_ellipsis (n : Name) (h : isValidVarName n = true) : isEllipsis n = false := by
+  cases n with
+  | nil => rfl
+  | cons b r =>
+    simp only [isValidVarName, Bool.and_eq_true] at h
+    by_cases hb : b = 46
+    · subst hb; exact absurd h.1 (by decide)
+    · cases r with
+      | nil => simp [isEllipsis]
+      | cons c r' =>
+        cases r' with
+        | nil => simp [isEllipsis]
+        | cons d r'' =>
+          unfold isEllipsis
+          split
+          · rename_i heq; injection heq with h1 _; exact absurd h1 hb
+          · rfl
+
+theorem mem_slotVars {α} (v : Name) : ∀ xs : List (Slot α), v ∈ slotVars xs ↔ Slot.var v ∈ xs
+  | [] => by simp [slotVars]
+  | .val a :: r => by simp [slotVars, mem_slotVars v r]
+  | .var n :: r => by
+    simp only [slotVars, List.mem_cons, mem_slotVars v r, Slot.var.injEq]
+
+theorem slots_vars_item (t : Tmpl) (r : Slots) (h : t ≠ .empty) : (Slots.item t r).vars = t.vars ++ r.vars := by
+  cases t <;> first | rfl | exact absurd rfl h
+
+mutual
+/-- no variable of a well-formed ellipsis-free template has an ellipsis name -/
+theorem vars_not_ellipsis_T : ∀ t : Tmpl, t.wf = true → noEllT t = true → ∀ v ∈ t.vars, isEllipsis v = false
+  | .list xs, hw, hn, v, hv => by
+    simp only [Tmpl.wf, Bool.and_eq_true] at hw
+    exact vars_not_ellipsis_S xs hw.1.1.2 (by simpa [noEllT] using hn) v (by simpa [Tmpl.vars] using hv)
+  | .ascii _, _, _, v, hv => by simp [Tmpl.vars] at hv
+  | .empty, _, _, v, hv => by simp [Tmpl.vars] at hv
+  | .asciiVar n _ _, hw, _, v, hv => by
+    simp only [Tmpl.vars, List.mem_cons, List.not_mem_nil, or_false] at hv
+    subst hv
+    simp only [Tmpl.wf, Bool.and_eq_true] at hw
+    exact valid_not_ellipsis _ hw.1.1.1
+  | .binary xs, hw, _, v, hv => by
+    simp only [Tmpl.wf, Bool.and_eq_true] at hw
+    have hm : Slot.var v ∈ xs := (mem_slotVars v xs).mp (by simpa [Tmpl.vars] using hv)
+    exact valid_not_ellipsis v ((slotsOk_mem _ _ hw.2).2 v hm)
+  | .boolean xs, hw, _, v, hv => by
+    simp only [Tmpl.wf, Bool.and_eq_true] at hw
+    have hm : Slot.var v ∈ xs := (mem_slotVars v xs).mp (by simpa [Tmpl.vars] using hv)
+    exact valid_not_ellipsis v ((slotsOk_mem _ _ hw.2).2 v hm)
+  | .int _ xs, hw, _, v, hv => by
+    simp only [Tmpl.wf, Bool.and_eq_true] at hw
+    have hm : Slot.var v ∈ xs := (mem_slotVars v xs).mp (by simpa [Tmpl.vars] using hv)
+    exact valid_not_ellipsis v ((slotsOk_mem _ _ hw.2).2 v hm)
+  | .uint _ xs, hw, _, v, hv => by
+    simp only [Tmpl.wf, Bool.and_eq_true] at hw
+    have hm : Slot.var v ∈ xs := (mem_slotVars v xs).mp (by simpa [Tmpl.vars] using hv)
+    exact valid_not_ellipsis v ((slotsOk_mem _ _ hw.2).2 v hm)
+  | .float _ xs, hw, _, v, hv => by
+    simp only [Tmpl.wf, Bool.and_eq_true] at hw
+    have hm : Slot.var v ∈ xs := (mem_slotVars v xs).mp (by simpa [Tmpl.vars] using hv)
+    exact valid_not_ellipsis v ((slotsOk_mem _ _ hw.2).2 v hm)
+theorem vars_not_ellipsis_S : ∀ xs : Slots, xs.wfAll = true → noEllS xs = true → ∀ v ∈ xs.vars, isEllipsis v = false
+  | .nil, _, _, v, hv => by simp [Slots.vars] at hv
+  | .var n r, hw, hn, v, hv => by
+    simp only [noEllS, Bool.and_eq_true, Bool.not_eq_true'] at hn
+    simp only [Slots.vars, List.mem_cons] at hv
+    rcases hv with rfl | hv
+    · exact hn.1
+    · exact vars_not_ellipsis_S r (by simpa [Slots.wfAll] using hw) hn.2 v hv
+  | .item t r, hw, hn, v, hv => by
+    simp only [noEllS, Bool.and_eq_true] at hn
+    simp only [Slots.wfAll, Bool.and_eq_true] at hw
+    by_cases ht : t = .empty
+    · subst ht
+      simp only [Slots.vars, List.mem_cons] at hv
+      rcases hv with rfl | hv
+      · rfl
+      · exact vars_not_ellipsis_S r hw.2 hn.2 v hv
+    · rw [slots_vars_item t r ht, List.mem_append] at hv
+      rcases hv with hv | hv
+      · exact vars_not_ellipsis_T t hw.1 hn.1 v hv
+      · exact vars_not_ellipsis_S r hw.2 hn.2 v hv
+end
+
+end Secs
+
+namespace Secs
+open Sml
+
+theorem vars_asciiVar (n : Name) (mn mx : Int) (e : Env) (t1 : Tmpl) (h : fillLeaf (.asciiVar n mn mx) e = some t1) :
+    t1.vars = [n].filter (unboundIn e) ∧ t1 ≠ .empty := by
+  simp only [fillLeaf] at h
+  cases h1 : Env.get? e n with
+  | none =>
+    simp only [h1, Option.some.injEq] at h
+    subst h
+    simp [Tmpl.vars, unboundIn, h1]
+  | some v =>
+    simp only [h1] at h
+    cases v with
+    | str s =>
+      simp only at h
+      split at h
+      · cases h
+      · split at h
+        · cases h
+        · unfold mkAscii at h
+          split at h
+          · cases h
+          · split at h
+            · cases h; simp [Tmpl.vars, unboundIn, h1]
+            · cases h
+    | _ => simp at h
+
+theorem filter_unbound_congr (e o : Env) (l : List Name) (h : ∀ v ∈ l, Env.get? o v = Env.get? e v) :
+    l.filter (unboundIn o) = l.filter (unboundIn e) := by
+  apply List.filter_congr
+  intro v hv
+  simp [unboundIn, h v hv]
+
+mutual
+/-- **Unmentioned variables remain in their original order**: the variables of the filled item
+are the template's variables without the bound ones, in the same order, at every depth. -/
+theorem vars_T : ∀ (t : Tmpl) (fuel : Nat) (e : Env) (t1 : Tmpl),
+    t.wf = true → noEllT t = true → noFloatT t = true → closedOnT e t → Env.get? e [] = none →
+    t.depth ≤ fuel → fill (fuel + 1) t e = some t1 →
+    t1.vars = t.vars.filter (unboundIn e) ∧ (t ≠ .empty → t1 ≠ .empty)
+  | .list xs, fuel, e, t1, hw, hn, hf, hc, he, hd, h => by
+    have hx : noEllS xs = true := by simpa [noEllT] using hn
+    cases fuel with
+    | zero => simp [Tmpl.depth] at hd
+    | succ k =>
+      rw [fill_list_noEll (k + 1) xs e hx] at h
+      cases ha : fillSlots (fun t => fill (k + 1) t (e.filter (fun kv => !isEllKey kv))) (e.filter (fun kv => !isEllKey kv)) xs with
+      | none => simp [ha] at h
+      | some a1 =>
+        simp only [ha, Option.bind_some] at h
+        obtain ⟨ys, rfl, hys⟩ := mkList_some a1 t1 h
+        have hwf := hw
+        simp only [Tmpl.wf, Bool.and_eq_true] at hwf
+        have := vars_S xs k (e.filter (fun kv => !isEllKey kv)) a1 ys hwf.1.1.2 hx (by simpa [noFloatT] using hf)
+          (closedOnS_filter e xs (by simpa [closedOnT] using hc)) (get_filter_none e _ [] he)
+          (by simp [Tmpl.depth] at hd; omega) ha hys
+        refine ⟨?_, fun _ => by simp⟩
+        simp only [Tmpl.vars, this]
+        apply filter_unbound_congr
+        intro v hv
+        rw [get_filter_notEll, vars_not_ellipsis_S xs hwf.1.1.2 hx v hv]
+        simp
+  | .ascii s, fuel, e, t1, _, _, _, _, _, _, h => by
+    simp only [fill, fillLeaf, Option.some.injEq] at h
+    subst h
+    exact ⟨by simp [Tmpl.vars], fun _ => by simp⟩
+  | .empty, fuel, e, t1, _, _, _, _, _, _, h => by
+    simp only [fill, fillLeaf, Option.some.injEq] at h
+    subst h
+    exact ⟨by simp [Tmpl.vars], fun h => absurd rfl h⟩
+  | .float _ _, _, _, _, _, _, hf, _, _, _, _ => by simp [noFloatT] at hf
+  | .asciiVar n mn mx, fuel, e, t1, _, _, _, _, _, _, h => by
+    rw [fill_leaf _ _ _ rfl] at h
+    obtain ⟨a, b⟩ := vars_asciiVar n mn mx e t1 h
+    exact ⟨by simpa [Tmpl.vars] using a, fun _ => b⟩
+  | .binary xs, fuel, e, t1, hw, _, _, hc, _, _, h => by
+    rw [fill_leaf _ _ _ rfl] at h
+    have hne : t1 ≠ .empty := by
+      rw [fillLeaf_binary xs e hw] at h
+      obtain ⟨_, _, rfl, _⟩ := mkBinary_some _ t1 h
+      simp
+    exact ⟨by simpa [Tmpl.vars] using vars_binary xs e t1 hw (by simpa [closedOnT] using hc) h, fun _ => hne⟩
+  | .boolean xs, fuel, e, t1, hw, _, _, hc, _, _, h => by
+    rw [fill_leaf _ _ _ rfl] at h
+    have hne : t1 ≠ .empty := by
+      rw [fillLeaf_boolean xs e hw] at h
+      obtain ⟨_, rfl, _⟩ := mkBoolean_some _ t1 h
+      simp
+    exact ⟨by simpa [Tmpl.vars] using vars_boolean xs e t1 hw (by simpa [closedOnT] using hc) h, fun _ => hne⟩
+  | .int w xs, fuel, e, t1, hw, _, _, hc, _, _, h => by
+    rw [fill_leaf _ _ _ rfl] at h
+    have hne : t1 ≠ .empty := by
+      rw [fillLeaf_int w xs e hw] at h
+      obtain ⟨_, rfl, _⟩ := mkInt_some w _ t1 h
+      simp
+    exact ⟨by simpa [Tmpl.vars] using vars_int w xs e t1 hw (by simpa [closedOnT] using hc) h, fun _ => hne⟩
+  | .uint w xs, fuel, e, t1, hw, _, _, hc, _, _, h => by
+    rw [fill_leaf _ _ _ rfl] at h
+    have hne : t1 ≠ .empty := by
+      rw [fillLeaf_uint w xs e hw] at h
+      obtain ⟨_, rfl, _⟩ := mkUint_some w _ t1 h
+      simp
+    exact ⟨by simpa [Tmpl.vars] using vars_uint w xs e t1 hw (by simpa [closedOnT] using hc) h, fun _ => hne⟩
+theorem vars_S : ∀ (xs : Slots) (fuel : Nat) (o : Env) (a1 : List GoVal) (ys : Slots),
+    xs.wfAll = true → noEllS xs = true → noFloatS xs = true → closedOnS o xs → Env.get? o [] = none →
+    xs.depth ≤ fuel →
+    fillSlots (fun t => fill (fuel + 1) t o) o xs = some a1 → mkListSlots a1 = some ys →
+    ys.vars = xs.vars.filter (unboundIn o)
+  | .nil, fuel, o, a1, ys, _, _, _, _, _, _, h, hm => by
+    simp only [fillSlots, Option.some.injEq] at h
+    subst h
+    simp only [mkListSlots, Option.some.injEq] at hm
+    subst hm
+    rfl
+  | .var n r, fuel, o, a1, ys, hw, hn, hf, hc, he, hd, h, hm => by
+    simp only [noEllS, Bool.and_eq_true, Bool.not_eq_true'] at hn
+    simp only [closedOnS] at hc
+    simp only [fillSlots] at h
+    cases hr : fillSlots (fun t => fill (fuel + 1) t o) o r with
+    | none => simp [hr] at h
+    | some a1' =>
+      simp only [hr, Option.map_some, Option.some.injEq] at h
+      subst h
+      cases h1 : Env.get? o n with
+      | none =>
+        simp only [h1] at hm
+        rcases mkListSlots_cons _ _ _ hm with ⟨t, ys', hg, _, _⟩ | ⟨m, ys', hg, rfl, hm'⟩
+        · cases hg
+        · cases hg
+          have ih := vars_S r fuel o a1' ys' (by simpa [Slots.wfAll] using hw) hn.2 (by simpa [noFloatS] using hf) hc.2 he
+            (by simpa [Slots.depth] using hd) hr hm'
+          simp [Slots.vars, List.filter_cons, unboundIn, h1, ih]
+      | some v =>
+        simp only [h1] at hm
+        obtain ⟨hns, hit⟩ := hc.1 v h1
+        rcases mkListSlots_cons _ _ _ hm with ⟨t', ys', hg, rfl, hm'⟩ | ⟨m, ys', hg, _, _⟩
+        · subst hg
+          obtain ⟨_, hvt, hne⟩ := hit t' rfl
+          have ih := vars_S r fuel o a1' ys' (by simpa [Slots.wfAll] using hw) hn.2 (by simpa [noFloatS] using hf) hc.2 he
+            (by simpa [Slots.depth] using hd) hr hm'
+          rw [slots_vars_item t' ys' hne, hvt]
+          simp [Slots.vars, List.filter_cons, unboundIn, h1, ih]
+        · exact absurd hg (hns m)
+  | .item t r, fuel, o, a1, ys, hw, hn, hf, hc, he, hd, h, hm => by
+    simp only [noEllS, Bool.and_eq_true] at hn
+    simp only [noFloatS, Bool.and_eq_true] at hf
+    simp only [Slots.wfAll, Bool.and_eq_true] at hw
+    simp only [closedOnS] at hc
+    simp only [Slots.depth] at hd
+    simp only [fillSlots] at h
+    cases ht : fill (fuel + 1) t o with
+    | none => simp [ht] at h
+    | some t1 =>
+      cases hr : fillSlots (fun t => fill (fuel + 1) t o) o r with
+      | none => simp [ht, hr] at h
+      | some a1' =>
+        simp only [ht, hr, Option.some.injEq] at h
+        subst h
+        rcases mkListSlots_cons _ _ _ hm with ⟨t', ys', hg, rfl, hm'⟩ | ⟨m, ys', hg, _, _⟩
+        · cases hg
+          obtain ⟨ihT, ihne⟩ := vars_T t fuel o t1 hw.1 hn.1 hf.1 hc.1 he (by omega) ht
+          have ihS := vars_S r fuel o a1' ys' hw.2 hn.2 hf.2 hc.2 he (by omega) hr hm'
+          by_cases hte : t = .empty
+          · subst hte
+            simp only [fill, fillLeaf, Option.some.injEq] at ht
+            subst ht
+            simp [Slots.vars, List.filter_cons, unboundIn, he, ihS]
+          · rw [slots_vars_item t1 ys' (ihne hte), slots_vars_item t r hte, List.filter_append, ihT, ihS]
+        · cases hg
+end
+
+/-- on `ItemNode.FillVariables` -/
+theorem Tmpl.fill_vars (t t1 : Tmpl) (e : Env) (hw : t.wf = true) (hn : noEllT t = true) (hf : noFloatT t = true)
+    (hc : closedOnT e t) (he : Env.get? e [] = none) (h : t.fill e = some t1) :
+    t1.vars = t.vars.filter (unboundIn e) :=
+  (vars_T t t.depth e t1 hw hn hf hc he (Nat.le_refl _) h).1
+
+end Secs
+
+/-! ## A refused first step is a refused one-step fill -/
+namespace Secs
+open Sml
+
+/-- slot lists that agree wherever the first one holds a value -/
+def Refines {α} : List (Slot α) → List (Slot α) → Prop
+  | [], [] => True
+  | .val a :: r1, s :: r2 => s = .val a ∧ Refines r1 r2
+  | .var _ :: r1, _ :: r2 => Refines r1 r2
+  | _, _ => False
+
+theorem mkSlots_cons_tail_none {α} (conv : GoVal → Option α) (g : GoVal) (A : List GoVal)
+    (h : mkSlots conv A = none) : mkSlots conv (g :: A) = none := by
+  cases g <;> simp only [mkSlots, h] <;> (try split) <;> rfl
+
+/-- when the tail is accepted, a refusal is the head's own and does not depend on the tail -/
+theorem mkSlots_cons_head_none {α} (conv : GoVal → Option α) (g : GoVal) (A B : List GoVal) (ys : List (Slot α))
+    (hA : mkSlots conv A = some ys) (h : mkSlots conv (g :: A) = none) : mkSlots conv (g :: B) = none := by
+  cases g <;> simp only [mkSlots, hA] at h ⊢ <;> (split at h <;> simp_all)
+
+theorem mkSlots_none_mono {α} (conv : GoVal → Option α) (canon : α → GoVal) (e1 e2 : Env) :
+    ∀ (xs : List (Slot α)), mkSlots conv (fillArgs canon e1 xs) = none →
+      mkSlots conv (fillArgs canon (e1 ++ e2) xs) = none
+  | [], h => by simp [fillArgs, mkSlots] at h
+  | .val a :: r, h => by
+    simp only [fillArgs] at h ⊢
+    cases hr : mkSlots conv (fillArgs canon e1 r) with
+    | none => exact mkSlots_cons_tail_none conv _ _ (mkSlots_none_mono conv canon e1 e2 r hr)
+    | some ys' => exact mkSlots_cons_head_none conv _ _ _ ys' hr h
+  | .var n :: r, h => by
+    simp only [fillArgs] at h ⊢
+    rw [get_append]
+    cases hr : mkSlots conv (fillArgs canon e1 r) with
+    | none => exact mkSlots_cons_tail_none conv _ _ (mkSlots_none_mono conv canon e1 e2 r hr)
+    | some ys' =>
+      cases h1 : Env.get? e1 n with
+      | none =>
+        -- an unbound variable name is never refused
+        simp only [h1] at h
+        simp only [mkSlots, hr] at h
+        split at h <;> simp at h
+      | some v =>
+        simp only [h1] at h ⊢
+        exact mkSlots_cons_head_none conv _ _ _ ys' hr h
+
+end Secs
+
+namespace Secs
+open Sml
+
+theorem mkSlots_cons_tail {α} (conv : GoVal → Option α) (g : GoVal) (A : List GoVal) (y2 : List (Slot α))
+    (sC : Slot α) (rC : List (Slot α)) (hA : mkSlots conv A = some y2)
+    (h : mkSlots conv (g :: A) = some (sC :: rC)) : rC = y2 := by
+  cases g <;> simp only [mkSlots, hA] at h <;> (try split at h) <;> simp_all
+
+theorem mkSlots_refines {α} (conv : GoVal → Option α) (canon : α → GoVal) (e1 e2 : Env) :
+    ∀ (xs ys1 ysC : List (Slot α)), ClosedFor conv e1 (slotVars xs) →
+      (∀ a, Slot.val a ∈ xs → conv (canon a) = some a) →
+      (∀ n, Slot.var n ∈ xs → conv (.str n) = none) →
+      mkSlots conv (fillArgs canon e1 xs) = some ys1 →
+      mkSlots conv (fillArgs canon (e1 ++ e2) xs) = some ysC → Refines ys1 ysC
+  | [], ys1, ysC, _, _, _, h1, h2 => by
+    simp only [fillArgs, mkSlots, Option.some.injEq] at h1 h2
+    subst h1; subst h2; trivial
+  | .val a :: r, ys1, ysC, hc, hx, hn, h1, h2 => by
+    simp only [fillArgs] at h1 h2
+    rw [mkSlots_cons_some conv _ a _ (hx a (by simp))] at h1 h2
+    cases hr1 : mkSlots conv (fillArgs canon e1 r) with
+    | none => simp [hr1] at h1
+    | some y1 =>
+      cases hr2 : mkSlots conv (fillArgs canon (e1 ++ e2) r) with
+      | none => simp [hr2] at h2
+      | some y2 =>
+        simp only [hr1, hr2, Option.map_some, Option.some.injEq] at h1 h2
+        subst h1; subst h2
+        exact ⟨rfl, mkSlots_refines conv canon e1 e2 r y1 y2 (by simpa [slotVars] using hc)
+          (fun a h => hx a (by simp [h])) (fun n h => hn n (by simp [h])) hr1 hr2⟩
+  | .var n :: r, ys1, ysC, hc, hx, hn, h1, h2 => by
+    simp only [fillArgs] at h1 h2
+    rw [get_append] at h2
+    cases hr1 : mkSlots conv (fillArgs canon e1 r) with
+    | none => rw [mkSlots_cons_tail_none conv _ _ hr1] at h1; cases h1
+    | some y1 =>
+      cases hr2 : mkSlots conv (fillArgs canon (e1 ++ e2) r) with
+      | none => rw [mkSlots_cons_tail_none conv _ _ hr2] at h2; cases h2
+      | some y2 =>
+        have ih := mkSlots_refines conv canon e1 e2 r y1 y2 hc.tail
+          (fun a h => hx a (by simp [h])) (fun n h => hn n (by simp [h])) hr1 hr2
+        cases hg : Env.get? e1 n with
+        | none =>
+          simp only [hg] at h1 h2
+          rw [mkSlots_cons_name conv n _ (hn n (by simp)), hr1] at h1
+          simp only [Option.map_some, Option.some.injEq] at h1
+          subst h1
+          -- whatever the combined table puts here, the first list holds a variable
+          cases ysC with
+          | nil =>
+            exfalso
+            have := mkSlots_length conv _ _ h2
+            simp at this
+          | cons sC rC =>
+            have hl : rC = y2 := mkSlots_cons_tail conv _ _ y2 sC rC hr2 h2
+            subst hl
+            exact ih
+        | some v =>
+          simp only [hg] at h1 h2
+          cases hv : conv v with
+          | none =>
+            exfalso
+            by_cases hs : ∃ s, v = .str s
+            · obtain ⟨s, rfl⟩ := hs
+              have := hc n (by simp [slotVars]) s hg
+              simp [hv] at this
+            · rw [mkSlots_cons_refused conv v _ hv (fun s hs' => hs ⟨s, hs'⟩)] at h1
+              cases h1
+          | some a =>
+            rw [mkSlots_cons_some conv v a _ hv, hr1] at h1
+            rw [mkSlots_cons_some conv v a _ hv, hr2] at h2
+            simp only [Option.map_some, Option.some.injEq] at h1 h2
+            subst h1; subst h2
+            exact ⟨rfl, ih⟩
+
+/-- a failing range check of an accepted first step fails in the one-step list as well -/
+theorem slotsOk_refines {α} (p : α → Bool) : ∀ (ys1 ysC : List (Slot α)), Refines ys1 ysC →
+    (∀ n, Slot.var n ∈ ys1 → isValidVarName n = true) →
+    ys1.all (fun s => match s with | .val a => p a | .var n => isValidVarName n) = false →
+    ysC.all (fun s => match s with | .val a => p a | .var n => isValidVarName n) = false
+  | [], [], _, _, h => by simp at h
+  | [], _ :: _, hr, _, _ => by simp [Refines] at hr
+  | .val a :: r1, [], hr, _, _ => by simp [Refines] at hr
+  | .var _ :: r1, [], hr, _, _ => by simp [Refines] at hr
+  | .val a :: r1, s :: r2, hr, hv, h => by
+    obtain ⟨rfl, hr'⟩ := hr
+    simp only [List.all_cons, Bool.and_eq_false_iff] at h ⊢
+    rcases h with h | h
+    · exact Or.inl h
+    · exact Or.inr (slotsOk_refines p r1 r2 hr' (fun n hn => hv n (by simp [hn])) h)
+  | .var n :: r1, s :: r2, hr, hv, h => by
+    simp only [List.all_cons, Bool.and_eq_false_iff] at h ⊢
+    rcases h with h | h
+    · rw [hv n (by simp)] at h; cases h
+    · exact Or.inr (slotsOk_refines p r1 r2 hr (fun n hn => hv n (by simp [hn])) h)
+
+theorem nodupNames_filter (p : Name → Bool) : ∀ l : List Name, nodupNames l = true → nodupNames (l.filter p) = true
+  | [], _ => rfl
+  | n :: r, h => by
+    simp only [nodupNames, Bool.and_eq_true, Bool.not_eq_true'] at h
+    have ih := nodupNames_filter p r h.2
+    simp only [List.filter_cons]
+    split
+    · simp only [nodupNames, Bool.and_eq_true, Bool.not_eq_true', ih, and_true]
+      cases hc : (r.filter p).contains n with
+      | false => rfl
+      | true =>
+        have : n ∈ r.filter p := by simpa using hc
+        have : n ∈ r := (List.mem_filter.mp this).1
+        have : r.contains n = true := by simpa using this
+        rw [h.1] at this; cases this
+    · exact ih
+
+end Secs
+
+namespace Secs
+open Sml
+
+theorem slotsOk_false_transfer {α} (p : α → Bool) (xs ys1 ysC : List (Slot α)) (e1 : Env)
+    (hx : slotsOk p xs = true) (hv : slotVars ys1 = (slotVars xs).filter (unboundIn e1))
+    (hr : Refines ys1 ysC) (h : slotsOk p ys1 = false) : slotsOk p ysC = false := by
+  simp only [slotsOk, Bool.and_eq_true] at hx
+  have hnd : nodupNames (slotVars ys1) = true := by rw [hv]; exact nodupNames_filter _ _ hx.2
+  have hvalid : ∀ n, Slot.var n ∈ ys1 → isValidVarName n = true := by
+    intro n hn
+    have h1 : n ∈ slotVars ys1 := (mem_slotVars n ys1).mpr hn
+    rw [hv] at h1
+    have h2 := (mem_slotVars n xs).mp (List.mem_filter.mp h1).1
+    have := hx.1
+    simp only [List.all_eq_true] at this
+    exact this _ h2
+  simp only [slotsOk, hnd, Bool.and_true] at h
+  simp only [slotsOk, Bool.and_eq_false_iff]
+  exact Or.inl (slotsOk_refines p ys1 ysC hr hvalid h)
+
+theorem refuse_int (w : Nat) (xs : List (Slot Int)) (e1 e2 : Env) (hw : (Tmpl.int w xs).wf = true)
+    (hc : ClosedFor convInt e1 (slotVars xs)) (h : fillLeaf (.int w xs) e1 = none) :
+    fillLeaf (.int w xs) (e1 ++ e2) = none := by
+  rw [fillLeaf_int w xs _ hw] at h ⊢
+  have hwf := hw
+  simp only [Tmpl.wf, Bool.and_eq_true, decide_eq_true_eq] at hwf
+  obtain ⟨⟨hwv, hmax⟩, hok⟩ := hwf
+  unfold mkInt at h ⊢
+  simp only [fillArgs_length, validWidth_opt_int w hwv] at h ⊢
+  have hl : ¬ xs.length * w > maxByteSize := by omega
+  simp only [hl, if_false] at h ⊢
+  cases h1 : mkSlots convInt (fillArgs (.sint 64) e1 xs) with
+  | none => simp [mkSlots_none_mono convInt (.sint 64) e1 e2 xs h1]
+  | some ys1 =>
+    simp only [h1, hwv, Bool.true_and] at h
+    have hbad : slotsOk (intInRange w) ys1 = false := by
+      cases hs : slotsOk (intInRange w) ys1 with
+      | false => rfl
+      | true => simp [hs] at h
+    cases h2 : mkSlots convInt (fillArgs (.sint 64) (e1 ++ e2) xs) with
+    | none => rfl
+    | some ysC =>
+      have hr := mkSlots_refines convInt (.sint 64) e1 e2 xs ys1 ysC hc (fun _ _ => rfl) (fun _ _ => rfl) h1 h2
+      have hv := mkSlots_vars convInt (.sint 64) e1 xs ys1 hc (fun _ _ => rfl) (fun _ _ => rfl) h1
+      simp [slotsOk_false_transfer (intInRange w) xs ys1 ysC e1 hok hv hr hbad]
+
+theorem refuse_uint (w : Nat) (xs : List (Slot Nat)) (e1 e2 : Env) (hw : (Tmpl.uint w xs).wf = true)
+    (hc : ClosedFor convUint e1 (slotVars xs)) (h : fillLeaf (.uint w xs) e1 = none) :
+    fillLeaf (.uint w xs) (e1 ++ e2) = none := by
+  rw [fillLeaf_uint w xs _ hw] at h ⊢
+  have hwf := hw
+  simp only [Tmpl.wf, Bool.and_eq_true, decide_eq_true_eq] at hwf
+  obtain ⟨⟨hwv, hmax⟩, hok⟩ := hwf
+  unfold mkUint at h ⊢
+  simp only [fillArgs_length, validWidth_opt_uint w hwv] at h ⊢
+  have hl : ¬ xs.length * w > maxByteSize := by omega
+  simp only [hl, if_false] at h ⊢
+  cases h1 : mkSlots convUint (fillArgs (.uint 64) e1 xs) with
+  | none => simp [mkSlots_none_mono convUint (.uint 64) e1 e2 xs h1]
+  | some ys1 =>
+    simp only [h1, hwv, Bool.true_and] at h
+    have hbad : slotsOk (uintInRange w) ys1 = false := by
+      cases hs : slotsOk (uintInRange w) ys1 with
+      | false => rfl
+      | true => simp [hs] at h
+    cases h2 : mkSlots convUint (fillArgs (.uint 64) (e1 ++ e2) xs) with
+    | none => rfl
+    | some ysC =>
+      have hr := mkSlots_refines convUint (.uint 64) e1 e2 xs ys1 ysC hc (fun _ _ => rfl) (fun _ _ => rfl) h1 h2
+      have hv := mkSlots_vars convUint (.uint 64) e1 xs ys1 hc (fun _ _ => rfl) (fun _ _ => rfl) h1
+      simp [slotsOk_false_transfer (uintInRange w) xs ys1 ysC e1 hok hv hr hbad]
+
+theorem refuse_boolean (xs : List (Slot Bool)) (e1 e2 : Env) (hw : (Tmpl.boolean xs).wf = true)
+    (hc : ClosedFor convBool e1 (slotVars xs)) (h : fillLeaf (.boolean xs) e1 = none) :
+    fillLeaf (.boolean xs) (e1 ++ e2) = none := by
+  rw [fillLeaf_boolean xs _ hw] at h ⊢
+  have hwf := hw
+  simp only [Tmpl.wf, Bool.and_eq_true, decide_eq_true_eq] at hwf
+  obtain ⟨hmax, hok⟩ := hwf
+  unfold mkBoolean at h ⊢
+  simp only [fillArgs_length] at h ⊢
+  have hl : ¬ xs.length > maxByteSize := by omega
+  simp only [hl, if_false] at h ⊢
+  cases h1 : mkSlots convBool (fillArgs .bool e1 xs) with
+  | none => simp [mkSlots_none_mono convBool .bool e1 e2 xs h1]
+  | some ys1 =>
+    simp only [h1] at h
+    have hbad : slotsOk (fun _ => true) ys1 = false := by
+      cases hs : slotsOk (fun (_ : Bool) => true) ys1 with
+      | false => rfl
+      | true => simp [hs] at h
+    cases h2 : mkSlots convBool (fillArgs .bool (e1 ++ e2) xs) with
+    | none => rfl
+    | some ysC =>
+      have hr := mkSlots_refines convBool .bool e1 e2 xs ys1 ysC hc (fun _ _ => rfl) (fun _ _ => rfl) h1 h2
+      have hv := mkSlots_vars convBool .bool e1 xs ys1 hc (fun _ _ => rfl) (fun _ _ => rfl) h1
+      simp [slotsOk_false_transfer (fun _ => true) xs ys1 ysC e1 hok hv hr hbad]
+
+end Secs
+
+namespace Secs
+open Sml
+
+theorem refines_map {α β} (f : Slot α → Slot β) (hf : ∀ n, f (.var n) = .var n) (hv : ∀ a, ∃ b, f (.val a) = .val b) :
+    ∀ (l1 l2 : List (Slot α)), Refines l1 l2 → Refines (l1.map f) (l2.map f)
+  | [], [], _ => trivial
+  | [], _ :: _, h => by simp [Refines] at h
+  | .val a :: r1, [], h => by simp [Refines] at h
+  | .var _ :: r1, [], h => by simp [Refines] at h
+  | .val a :: r1, s :: r2, h => by
+    obtain ⟨rfl, h'⟩ := h
+    obtain ⟨b, hb⟩ := hv a
+    simp only [List.map_cons, hb]
+    exact ⟨rfl, refines_map f hf hv r1 r2 h'⟩
+  | .var n :: r1, s :: r2, h => by
+    simp only [List.map_cons, hf]
+    exact refines_map f hf hv r1 r2 h
+
+theorem refines_refused {β} : ∀ (l1 l2 : List (Slot (Option β))), Refines l1 l2 →
+    l1.any slotRefused = true → l2.any slotRefused = true
+  | [], _, _, h => by simp at h
+  | .val a :: r1, [], h, _ => by simp [Refines] at h
+  | .var _ :: r1, [], h, _ => by simp [Refines] at h
+  | .val a :: r1, s :: r2, h, ha => by
+    obtain ⟨rfl, h'⟩ := h
+    simp only [List.any_cons, Bool.or_eq_true] at ha ⊢
+    rcases ha with ha | ha
+    · exact Or.inl ha
+    · exact Or.inr (refines_refused r1 r2 h' ha)
+  | .var n :: r1, s :: r2, h, ha => by
+    simp only [List.any_cons, Bool.or_eq_true] at ha ⊢
+    rcases ha with ha | ha
+    · simp [slotRefused] at ha
+    · exact Or.inr (refines_refused r1 r2 h ha)
+
+def toIntSlot : Slot Nat → Slot Int
+  | .val v => .val (v : Int)
+  | .var n => .var n
+
+theorem refuse_binary (xs : List (Slot Nat)) (e1 e2 : Env) (hw : (Tmpl.binary xs).wf = true)
+    (hc : ClosedFor convBinary e1 (slotVars xs)) (h : fillLeaf (.binary xs) e1 = none) :
+    fillLeaf (.binary xs) (e1 ++ e2) = none := by
+  rw [fillLeaf_binary xs _ hw] at h ⊢
+  have hwf := hw
+  simp only [Tmpl.wf, Bool.and_eq_true, decide_eq_true_eq] at hwf
+  obtain ⟨hmax, hok⟩ := hwf
+  unfold mkBinary at h ⊢
+  simp only [fillArgs_length] at h ⊢
+  have hl : ¬ xs.length > maxByteSize := by omega
+  simp only [hl, if_false] at h ⊢
+  rw [fillArgs_liftB] at h ⊢
+  have hnames : ∀ n, Slot.var n ∈ xs.map liftB → convBinary (.str n) = none := by
+    intro n hn
+    simp only [List.mem_map] at hn
+    obtain ⟨s, hs, hsl⟩ := hn
+    cases s with
+    | val v => simp [liftB] at hsl
+    | var m =>
+      simp only [liftB, Slot.var.injEq] at hsl
+      subst hsl
+      have := (slotsOk_mem _ _ hok).2 m hs
+      simp [convBinary, valid_not_0b m this]
+  have hvals : ∀ a, Slot.val a ∈ xs.map liftB → convBinary (canonB a) = some a := by
+    intro a ha
+    simp only [List.mem_map] at ha
+    obtain ⟨s, _, hsl⟩ := ha
+    cases s with
+    | val v => simp only [liftB, Slot.val.injEq] at hsl; subst hsl; rfl
+    | var m => simp [liftB] at hsl
+  have hcl : ClosedFor convBinary e1 (slotVars (xs.map liftB)) := by
+    rw [slotVars_map liftB (fun _ => rfl) (fun _ => ⟨_, rfl⟩)]; exact hc
+  cases h1 : mkSlots convBinary (fillArgs canonB e1 (xs.map liftB)) with
+  | none => simp [mkSlots_none_mono convBinary canonB e1 e2 _ h1]
+  | some ys1 =>
+    cases h2 : mkSlots convBinary (fillArgs canonB (e1 ++ e2) (xs.map liftB)) with
+    | none => rfl
+    | some ysC =>
+      have hr := mkSlots_refines convBinary canonB e1 e2 _ ys1 ysC hcl hvals hnames h1 h2
+      simp only [h1] at h
+      simp only []
+      by_cases href : ys1.any slotRefused = true
+      · simp [refines_refused ys1 ysC hr href]
+      · simp only [href, Bool.false_eq_true, if_false] at h
+        by_cases hrefC : ysC.any slotRefused = true
+        · simp [hrefC]
+        · simp only [hrefC, Bool.false_eq_true, if_false]
+          have hbad : slotsOk (fun (v : Int) => decide (0 ≤ v) && decide (v < 256)) (ys1.map (slotUnwrap 0)) = false := by
+            cases hs : slotsOk (fun (v : Int) => decide (0 ≤ v) && decide (v < 256)) (ys1.map (slotUnwrap 0)) with
+            | false => rfl
+            | true => simp [hs] at h
+          -- the template's own slots, as the factory sees them
+          let xsI : List (Slot Int) := xs.map toIntSlot
+          have hxsI : slotsOk (fun (v : Int) => decide (0 ≤ v) && decide (v < 256)) xsI = true := by
+            simp only [slotsOk, Bool.and_eq_true, List.all_eq_true] at hok ⊢
+            constructor
+            · intro s hs
+              simp only [xsI, List.mem_map] at hs
+              obtain ⟨s0, hs0, rfl⟩ := hs
+              have := hok.1 s0 hs0
+              cases s0 with
+              | val v => simp only [decide_eq_true_eq] at this; simp only [toIntSlot, Bool.and_eq_true, decide_eq_true_eq]; omega
+              | var n => simpa [toIntSlot] using this
+            · have : slotVars xsI = slotVars xs := slotVars_map toIntSlot (fun _ => rfl) (fun _ => ⟨_, rfl⟩) xs
+              rw [this]; exact hok.2
+          have hv := mkSlots_vars convBinary canonB e1 _ ys1 hcl hvals hnames h1
+          have hv' : slotVars (ys1.map (slotUnwrap (0 : Int))) = (slotVars xsI).filter (unboundIn e1) := by
+            rw [slotVars_map (slotUnwrap (0 : Int)) (fun _ => rfl) (fun a => by cases a <;> exact ⟨_, rfl⟩), hv,
+              slotVars_map liftB (fun _ => rfl) (fun _ => ⟨_, rfl⟩)]
+            congr 1
+            exact (slotVars_map toIntSlot (fun _ => rfl) (fun _ => ⟨_, rfl⟩) xs).symm
+          have hr' := refines_map (slotUnwrap (0 : Int)) (fun _ => rfl) (fun a => by cases a <;> exact ⟨_, rfl⟩) ys1 ysC hr
+          simp [slotsOk_false_transfer _ xsI _ _ e1 hxsI hv' hr' hbad]
+
+end Secs
+
+namespace Secs
+open Sml
+
+theorem refuse_asciiVar (n : Name) (mn mx : Int) (e1 e2 : Env) (h : fillLeaf (.asciiVar n mn mx) e1 = none) :
+    fillLeaf (.asciiVar n mn mx) (e1 ++ e2) = none := by
+  simp only [fillLeaf] at h ⊢
+  rw [get_append]
+  cases h1 : Env.get? e1 n with
+  | none => simp [h1] at h
+  | some v => simp only [h1] at h ⊢; exact h
+
+theorem fillSlots_length (child : Tmpl → Option Tmpl) (o : Env) : ∀ (xs : Slots) (a : List GoVal),
+    fillSlots child o xs = some a → a.length = xs.len
+  | .nil, a, h => by simp only [fillSlots, Option.some.injEq] at h; subst h; rfl
+  | .var n r, a, h => by
+    simp only [fillSlots] at h
+    cases hr : fillSlots child o r with
+    | none => simp [hr] at h
+    | some a' =>
+      simp only [hr, Option.map_some, Option.some.injEq] at h
+      subst h
+      simp [Slots.len, fillSlots_length child o r a' hr]
+  | .item t r, a, h => by
+    simp only [fillSlots] at h
+    cases ht : child t with
+    | none => simp [ht] at h
+    | some t1 =>
+      cases hr : fillSlots child o r with
+      | none => simp [ht, hr] at h
+      | some a' =>
+        simp only [ht, hr, Option.some.injEq] at h
+        subst h
+        simp [Slots.len, fillSlots_length child o r a' hr]
+
+theorem mkListSlots_tail_none (g : GoVal) (a : List GoVal) (h : mkListSlots a = none) : mkListSlots (g :: a) = none := by
+  cases g <;> simp [mkListSlots, h]
+
+/-- a refusal of the argument list by the list factory's conversion carries over -/
+theorem listSlots_none_transfer (c1 cC : Tmpl → Option Tmpl) (o1 o2 : Env) :
+    ∀ (xs : Slots) (a1 aC : List GoVal), fillSlots c1 o1 xs = some a1 → fillSlots cC (o1 ++ o2) xs = some aC →
+      mkListSlots a1 = none → mkListSlots aC = none
+  | .nil, a1, aC, h1, _, hm => by
+    simp only [fillSlots, Option.some.injEq] at h1; subst h1; simp [mkListSlots] at hm
+  | .var n r, a1, aC, h1, h2, hm => by
+    simp only [fillSlots] at h1 h2
+    cases hr1 : fillSlots c1 o1 r with
+    | none => simp [hr1] at h1
+    | some a1' =>
+      cases hr2 : fillSlots cC (o1 ++ o2) r with
+      | none => simp [hr2] at h2
+      | some aC' =>
+        simp only [hr1, hr2, Option.map_some, Option.some.injEq] at h1 h2
+        subst h1; subst h2
+        have ih := listSlots_none_transfer c1 cC o1 o2 r a1' aC' hr1 hr2
+        rw [get_append]
+        cases hg : Env.get? o1 n with
+        | none =>
+          simp only [hg] at hm ⊢
+          apply mkListSlots_tail_none
+          apply ih
+          cases hr : mkListSlots a1' with
+          | none => rfl
+          | some y => simp [mkListSlots, hr] at hm
+        | some v =>
+          simp only [hg] at hm ⊢
+          cases hr : mkListSlots a1' with
+          | none => exact mkListSlots_tail_none _ _ (ih hr)
+          | some y =>
+            cases v <;> simp only [mkListSlots, hr] at hm ⊢ <;> simp at hm <;> rfl
+  | .item t r, a1, aC, h1, h2, hm => by
+    simp only [fillSlots] at h1 h2
+    cases ht1 : c1 t with
+    | none => simp [ht1] at h1
+    | some t1 =>
+      cases hr1 : fillSlots c1 o1 r with
+      | none => simp [ht1, hr1] at h1
+      | some a1' =>
+        cases ht2 : cC t with
+        | none => simp [ht2] at h2
+        | some t2 =>
+          cases hr2 : fillSlots cC (o1 ++ o2) r with
+          | none => simp [ht2, hr2] at h2
+          | some aC' =>
+            simp only [ht1, hr1, ht2, hr2, Option.some.injEq] at h1 h2
+            subst h1; subst h2
+            apply mkListSlots_tail_none
+            apply listSlots_none_transfer c1 cC o1 o2 r a1' aC' hr1 hr2
+            cases hr : mkListSlots a1' with
+            | none => rfl
+            | some y => simp [mkListSlots, hr] at hm
+
+/-- the own-variable check of the list factory still passes after a fill with closed values -/
+theorem listOwnOk_after_fill (c1 : Tmpl → Option Tmpl) (o1 : Env) :
+    ∀ (xs : Slots) (pos : Nat) (e : Bool) (a1 : List GoVal) (ys1 : Slots), noEllS xs = true → closedOnS o1 xs →
+      fillSlots c1 o1 xs = some a1 → mkListSlots a1 = some ys1 → listOwnOk xs pos e = true → listOwnOk ys1 pos e = true
+  | .nil, pos, e, a1, ys1, _, _, h1, hm, _ => by
+    simp only [fillSlots, Option.some.injEq] at h1; subst h1
+    simp only [mkListSlots, Option.some.injEq] at hm; subst hm; rfl
+  | .var n r, pos, e, a1, ys1, hn, hc, h1, hm, hok => by
+    simp only [noEllS, Bool.and_eq_true, Bool.not_eq_true'] at hn
+    simp only [closedOnS] at hc
+    simp only [fillSlots] at h1
+    cases hr1 : fillSlots c1 o1 r with
+    | none => simp [hr1] at h1
+    | some a1' =>
+      simp only [hr1, Option.map_some, Option.some.injEq] at h1
+      subst h1
+      have hvalid : isValidVarName n = true ∧ listOwnOk r (pos + 1) e = true := by
+        simp only [listOwnOk] at hok
+        split at hok
+        · rename_i hv; exact ⟨hv, hok⟩
+        · simp [hn.1] at hok
+      cases hg : Env.get? o1 n with
+      | none =>
+        simp only [hg] at hm
+        rcases mkListSlots_cons _ _ _ hm with ⟨t, ys', hgg, _, _⟩ | ⟨m, ys', hgg, rfl, hm'⟩
+        · cases hgg
+        · cases hgg
+          simp only [listOwnOk, hvalid.1, if_true]
+          exact listOwnOk_after_fill c1 o1 r (pos + 1) e a1' ys' hn.2 hc.2 hr1 hm' hvalid.2
+      | some v =>
+        simp only [hg] at hm
+        obtain ⟨hns, _⟩ := hc.1 v hg
+        rcases mkListSlots_cons _ _ _ hm with ⟨t', ys', hgg, rfl, hm'⟩ | ⟨m, ys', hgg, _, _⟩
+        · simp only [listOwnOk]
+          exact listOwnOk_after_fill c1 o1 r (pos + 1) e a1' ys' hn.2 hc.2 hr1 hm' hvalid.2
+        · exact absurd hgg (hns m)
+  | .item t r, pos, e, a1, ys1, hn, hc, h1, hm, hok => by
+    simp only [noEllS, Bool.and_eq_true] at hn
+    simp only [closedOnS] at hc
+    simp only [fillSlots] at h1
+    cases ht1 : c1 t with
+    | none => simp [ht1] at h1
+    | some t1 =>
+      cases hr1 : fillSlots c1 o1 r with
+      | none => simp [ht1, hr1] at h1
+      | some a1' =>
+        simp only [ht1, hr1, Option.some.injEq] at h1
+        subst h1
+        rcases mkListSlots_cons _ _ _ hm with ⟨t', ys', hgg, rfl, hm'⟩ | ⟨m, ys', hgg, _, _⟩
+        · simp only [listOwnOk] at hok ⊢
+          exact listOwnOk_after_fill c1 o1 r (pos + 1) e a1' ys' hn.2 hc.2 hr1 hm' hok
+        · cases hgg
+
+end Secs
+
+namespace Secs
+open Sml
+
+mutual
+/-- **A first step that is refused is refused in one step as well** (the refusal is caused by a
+value of the first table, which the union still holds). -/
+theorem refuse_T : ∀ (t : Tmpl) (fuel : Nat) (e1 e2 : Env),
+    t.wf = true → noEllT t = true → noFloatT t = true → closedOnT e1 t → Env.get? e1 [] = none →
+    t.depth ≤ fuel → fill (fuel + 1) t e1 = none → fill (fuel + 1) t (e1 ++ e2) = none
+  | .list xs, fuel, e1, e2, hw, hn, hf, hc, he, hd, h => by
+    have hx : noEllS xs = true := by simpa [noEllT] using hn
+    cases fuel with
+    | zero => simp [Tmpl.depth] at hd
+    | succ k =>
+      rw [fill_list_noEll (k + 1) xs _ hx] at h ⊢
+      rw [List.filter_append]
+      have hwf := hw
+      simp only [Tmpl.wf, Bool.and_eq_true, decide_eq_true_eq] at hwf
+      have hcS := closedOnS_filter e1 xs (by simpa [closedOnT] using hc)
+      have heS := get_filter_none e1 (fun kv => !isEllKey kv) [] he
+      cases ha : fillSlots (fun t => fill (k + 1) t (e1.filter (fun kv => !isEllKey kv))) (e1.filter (fun kv => !isEllKey kv)) xs with
+      | none =>
+        rw [refuse_S xs k _ (e2.filter (fun kv => !isEllKey kv)) hwf.1.1.2 hx (by simpa [noFloatT] using hf) hcS heS
+          (by simp [Tmpl.depth] at hd; omega) ha]
+        rfl
+      | some a1 =>
+        simp only [ha, Option.bind_some] at h
+        cases hb : fillSlots (fun t => fill (k + 1) t (e1.filter (fun kv => !isEllKey kv) ++ e2.filter (fun kv => !isEllKey kv)))
+            (e1.filter (fun kv => !isEllKey kv) ++ e2.filter (fun kv => !isEllKey kv)) xs with
+        | none => rfl
+        | some aC =>
+          simp only [Option.bind_some]
+          have hl1 := fillSlots_length _ _ xs a1 ha
+          have hlC := fillSlots_length _ _ xs aC hb
+          unfold mkList at h ⊢
+          have hlen1 : ¬ a1.length > maxByteSize := by rw [hl1]; omega
+          have hlenC : ¬ aC.length > maxByteSize := by rw [hlC]; omega
+          simp only [hlen1, hlenC, if_false] at h ⊢
+          cases hm : mkListSlots a1 with
+          | none => rw [listSlots_none_transfer _ _ _ _ xs a1 aC ha hb hm]
+          | some ys1 =>
+            exfalso
+            simp only [hm] at h
+            have h1 := listOwnOk_after_fill _ _ xs 0 false a1 ys1 hx hcS ha hm hwf.1.2
+            have h2 : nodupNames ys1.vars = true := by
+              rw [vars_S xs k _ a1 ys1 hwf.1.1.2 hx (by simpa [noFloatT] using hf) hcS heS
+                (by simp [Tmpl.depth] at hd; omega) ha hm]
+              exact nodupNames_filter _ _ hwf.2
+            simp [h1, h2] at h
+  | .ascii s, fuel, e1, e2, _, _, _, _, _, _, h => by simp [fill, fillLeaf] at h
+  | .empty, fuel, e1, e2, _, _, _, _, _, _, h => by simp [fill, fillLeaf] at h
+  | .float _ _, _, _, _, _, _, hf, _, _, _, _ => by simp [noFloatT] at hf
+  | .asciiVar n mn mx, fuel, e1, e2, _, _, _, _, _, _, h => by
+    rw [fill_leaf _ _ _ rfl] at h ⊢
+    exact refuse_asciiVar n mn mx e1 e2 h
+  | .binary xs, fuel, e1, e2, hw, _, _, hc, _, _, h => by
+    rw [fill_leaf _ _ _ rfl] at h ⊢
+    exact refuse_binary xs e1 e2 hw (by simpa [closedOnT] using hc) h
+  | .boolean xs, fuel, e1, e2, hw, _, _, hc, _, _, h => by
+    rw [fill_leaf _ _ _ rfl] at h ⊢
+    exact refuse_boolean xs e1 e2 hw (by simpa [closedOnT] using hc) h
+  | .int w xs, fuel, e1, e2, hw, _, _, hc, _, _, h => by
+    rw [fill_leaf _ _ _ rfl] at h ⊢
+    exact refuse_int w xs e1 e2 hw (by simpa [closedOnT] using hc) h
+  | .uint w xs, fuel, e1, e2, hw, _, _, hc, _, _, h => by
+    rw [fill_leaf _ _ _ rfl] at h ⊢
+    exact refuse_uint w xs e1 e2 hw (by simpa [closedOnT] using hc) h
+theorem refuse_S : ∀ (xs : Slots) (fuel : Nat) (o1 o2 : Env),
+    xs.wfAll = true → noEllS xs = true → noFloatS xs = true → closedOnS o1 xs → Env.get? o1 [] = none →
+    xs.depth ≤ fuel →
+    fillSlots (fun t => fill (fuel + 1) t o1) o1 xs = none →
+    fillSlots (fun t => fill (fuel + 1) t (o1 ++ o2)) (o1 ++ o2) xs = none
+  | .nil, _, _, _, _, _, _, _, _, _, h => by simp [fillSlots] at h
+  | .var n r, fuel, o1, o2, hw, hn, hf, hc, he, hd, h => by
+    simp only [noEllS, Bool.and_eq_true] at hn
+    simp only [closedOnS] at hc
+    simp only [fillSlots] at h ⊢
+    cases hr : fillSlots (fun t => fill (fuel + 1) t o1) o1 r with
+    | none =>
+      rw [refuse_S r fuel o1 o2 (by simpa [Slots.wfAll] using hw) hn.2 (by simpa [noFloatS] using hf) hc.2 he
+        (by simpa [Slots.depth] using hd) hr]
+      rfl
+    | some a => simp [hr] at h
+  | .item t r, fuel, o1, o2, hw, hn, hf, hc, he, hd, h => by
+    simp only [noEllS, Bool.and_eq_true] at hn
+    simp only [noFloatS, Bool.and_eq_true] at hf
+    simp only [Slots.wfAll, Bool.and_eq_true] at hw
+    simp only [closedOnS] at hc
+    simp only [Slots.depth] at hd
+    simp only [fillSlots] at h ⊢
+    cases ht : fill (fuel + 1) t o1 with
+    | none =>
+      rw [refuse_T t fuel o1 o2 hw.1 hn.1 hf.1 hc.1 he (by omega) ht]
+    | some t1 =>
+      cases hr : fillSlots (fun t => fill (fuel + 1) t o1) o1 r with
+      | none =>
+        rw [refuse_S r fuel o1 o2 hw.2 hn.2 hf.2 hc.2 he (by omega) hr]
+        cases fill (fuel + 1) t (o1 ++ o2) <;> rfl
+      | some a => simp [ht, hr] at h
+end
+
+/-- **C09, composition, unconditional**: filling once with the union is filling with the first
+table and then — if that was accepted — with the second; refusals included. -/
+theorem Tmpl.fill_compose_bind (t : Tmpl) (e1 e2 : Env) (hw : t.wf = true) (hn : noEllT t = true) (hf : noFloatT t = true)
+    (hc : closedOnT e1 t) (he : Env.get? e1 [] = none) :
+    t.fill (e1 ++ e2) = (t.fill e1).bind (fun t1 => t1.fill e2) := by
+  cases h : t.fill e1 with
+  | none => exact refuse_T t t.depth e1 e2 hw hn hf hc he (Nat.le_refl _) h
+  | some t1 => exact (Tmpl.fill_compose t t1 e1 e2 hw hn hf hc h).symm
 
 end Secs
